@@ -22,6 +22,7 @@ type feat struct {
 	namedUnionMember     bool // a union with a named member
 	typeValueRebinds     bool // a type value binds a name that the values bind to another type
 	namedAndBareMember   bool // a union with members n=T and T
+	namedRepeated        bool // the same named type occurs more than once
 }
 
 func underSpec(t *TSpec) *TSpec {
@@ -41,6 +42,8 @@ func (f *feat) walkType(t *TSpec, depth int, names map[string]string) {
 		d := t.Elems[0].Descr()
 		if old, ok := names[t.Name]; ok && old != d {
 			f.sameNameTwoTypes = true
+		} else if ok {
+			f.namedRepeated = true
 		}
 		names[t.Name] = d
 		if t.Elems[0].Kind == "named" && t.Elems[0].Name == t.Name {
@@ -171,10 +174,16 @@ func classifyRT(cs *rtCase, res rtResult) string {
 	case res.class == "parse-error" && strings.HasPrefix(msg, "no such type name") && f.namedInsideContainer:
 		return p + "typedef-in-value-used-by-decorator"
 	case f.bareEmpty && (res.class == "type-mismatch" || res.class == "value-mismatch" ||
-		(res.class == "parse-error" && (strings.Contains(msg, "null") || notInUnionRE.MatchString(msg)))):
+		(res.class == "parse-error" && (strings.Contains(msg, "null") || notInUnionRE.MatchString(msg) ||
+			strings.Contains(msg, "decorator not of type") || strings.Contains(msg, "decorator conflict")))):
 		// read back as a container of nulls: the wrong type, or an error where that type is
 		// then combined with the right one (a later element, the enclosing union, a name)
 		return p + "empty-container-undecorated"
+	case f.namedUnionContainer && f.namedRepeated && !f.sameNameTwoTypes &&
+		((res.class == "parse-error" && notInUnionRE.MatchString(msg)) || res.class == "value-mismatch"):
+		// a later occurrence of a named container of union elements: the elements are written
+		// with known=true, i.e. without the member decorators the analyzer needs
+		return p + "known-name-union-elements-undecorated"
 	case res.class == "parse-error" && f.unionField && notInUnionSame(msg):
 		return p + "union-field-under-decorator"
 	case res.class == "parse-error" && f.namedUnionMember && notInUnionNamedMember(msg):
